@@ -246,7 +246,16 @@ Apply(h, c) ==
 
 \* the recorded call c (with observed ret / dead / fired as sequences) is a step from h
 SetOf(s) == {s[i] : i \in 1..Len(s)}
-CallStep(h, c) == LET r == Apply(h, c) IN
+\* c.fault = 1: the harness made an allocation request of this very call fail (and the failure was delivered).  A call
+\* that hands a reference to a container, or copies a tree, may then fail: nothing changes, nothing is destroyed, the
+\* reference stays with the caller (C05's "failed operations leave ownership with the caller" under real failures)
+FaultOf(c) == IF "fault" \in DOMAIN c THEN c.fault ELSE 0
+Refusable == {"oadd", "oaddnew", "aadd", "aput", "ains", "ptrset", "copy"}
+ApplyF(h, c) == IF FaultOf(c) = 1 /\ c.ret = -1 /\ c.op \in Refusable
+                THEN (IF c.op = "copy" THEN (IF Holds(h, c.a) THEN Res(h, -1, {}, {}) ELSE Bad(h))      \* (a failed copy reports no ids)
+                      ELSE IF Apply(h, [c EXCEPT !.ret = 0]).ok THEN Res(h, -1, {}, {}) ELSE Bad(h))
+                ELSE Apply(h, c)
+CallStep(h, c) == LET r == ApplyF(h, c) IN
                   [ok |-> r.ok /\ r.ret = c.ret /\ r.dead = SetOf(c.dead) /\ r.fired = SetOf(c.fired), h |-> r.h]
 
 ----------------------------------------------------------------------------
